@@ -53,7 +53,8 @@ def spec_key(spec, with_mass=True):
     return (j, 10.0 + d + 0.5) if spec % 2 == 1 else (10 * j + 1, d + 0.5)
 
 
-def build_table(rows, *, label_enc="1/-1", extra_levels=(), nfeat=2, key_cols=("ScanNr", "ExpMass"), missing_rt=False, share2=False):
+def build_table(rows, *, label_enc="1/-1", extra_levels=(), nfeat=2, key_cols=("ScanNr", "ExpMass"), missing_rt=False, share2=False,
+                int_mass=False):
     """rows: list of dicts with id (int), spec (int), pep (int), tgt (bool), feats (list of float, optional),
     lvl (dict level-name -> int, optional), file (int, optional).  Returns a DataFrame in PIN column order."""
     n = len(rows)
@@ -70,6 +71,12 @@ def build_table(rows, *, label_enc="1/-1", extra_levels=(), nfeat=2, key_cols=("
         pos = {sp: k for k, sp in enumerate(sorted({int(r["spec"]) for r in rows}))}      # spectra numbered 0, 1, 2, ... within the table
         d["ScanNr"] = [pos[int(r["spec"])] // 2 + 1 for r in rows]
         d["ExpMass"] = [500.0 + pos[int(r["spec"])] for r in rows]
+    if int_mass:
+        # masses that are whole numbers for two spectra out of three and are WRITTEN as such in a text table ("507", not "507.0"):
+        # a chunk of such rows is type-inferred as integers, a chunk holding one fractional mass as floats -- the same spectrum
+        # must still be recognised across chunks (the key is the VALUE of the columns, not its rendering)
+        d["ScanNr"] = [1 + int(r["spec"]) // 2 for r in rows]
+        d["ExpMass"] = [500.0 + int(r["spec"]) + (0.5 if int(r["spec"]) % 3 == 0 else 0.0) for r in rows]
     if "ret_time" in key_cols and share2:
         d["ret_time"] = [10.0 for r in rows]
     elif "ret_time" in key_cols:
@@ -83,7 +90,10 @@ def build_table(rows, *, label_enc="1/-1", extra_levels=(), nfeat=2, key_cols=("
     for lv in extra_levels:
         d[LEVEL_COLS[lv]] = [level_string(lv, r["lvl"][lv]) for r in rows]
     d["Proteins"] = ["prot_r%d" % r["id"] for r in rows]
-    return pd.DataFrame(d)
+    df = pd.DataFrame(d)
+    if int_mass:
+        df.attrs["int_text"] = ["ExpMass"]
+    return df
 
 
 def write_table(df: pd.DataFrame, path: Path, row_group: int | None = None):
@@ -92,7 +102,12 @@ def write_table(df: pd.DataFrame, path: Path, row_group: int | None = None):
         tbl = pa.Table.from_pandas(df, preserve_index=False)
         pq.write_table(tbl, path, row_group_size=row_group or max(1, len(df)))
     else:
-        df.to_csv(path, sep="\t", index=False)
+        out = df
+        for c in df.attrs.get("int_text", []):
+            # whole-number values of these float columns are written without a fractional part
+            out = out.copy()
+            out[c] = pd.Series([int(v) if float(v).is_integer() else float(v) for v in df[c]], dtype=object, index=df.index)
+        out.to_csv(path, sep="\t", index=False)
     return path
 
 
